@@ -33,6 +33,9 @@ def run(ctx):
         "code between two events (scheduling inside aiokafka) is covered only by the sampled histories",
     ]
     ctx.assumptions += [
+        "a wrong reset (stale OFFSET_OUT_OF_RANGE acted upon) is therefore visible as redelivery below the position / "
+        "a reset without 'no committed offset'; members with auto_offset_reset=latest are not generated because the "
+        "no-loss theorem is stated relative to the log start (a legitimate 'latest' reset skips records by policy)",
         "auto_offset_reset=earliest and an unmoved log start for every member (the reset policy is C13's subject); "
         "no seek() calls (C03/C13)",
         "crash points (kill = connections aborted + every task of the member cancelled), fault placements and "
@@ -52,5 +55,9 @@ def run(ctx):
         "producers (control batches = invisible offsets); hand-outs that fail in the middle: key / value deserializers that raise "
         "on chosen records (once per member incarnation, or always) and Fetch responses carrying one batch with a wrong "
         "CRC (check_crcs=True, once) — the application catches the exception from getone()/getmany(), keeps polling, "
-        "committing and auto-committing; a record whose hand-out raised was NOT handed out. non-trivial = ≥2 generations, ≥1 delivery, ≥1 commit")
+        "committing and auto-committing; a record whose hand-out raised was NOT handed out; NON-retriable coordination errors (30, 29, 12, 28, 24) "
+        "at OffsetCommit / Heartbeat / JoinGroup / SyncGroup parked for the application while data is buffered and the "
+        "application is busy between polls; old Fetch responses held, the partition moved to another leader, and "
+        "answered late with OFFSET_OUT_OF_RANGE once the member has fetched on (stale answer); idle applications "
+        "(max_poll_interval_ms 1..1.5 s) and revoke callbacks longer than the session timeout. non-trivial = ≥2 generations, ≥1 delivery, ≥1 commit")
     G.run_check(ctx, "C04", CLAUSE.get, n_quick=100, n_thorough=4000)
